@@ -501,6 +501,8 @@ def process(ctx, batch, configs, values, stats, known, recs=None):
             if stats["shrunk"] < 3:
                 small = shrink(small, by_name[ca], by_name[cb], values)
                 stats["shrunk"] += 1
+            if isinstance(batch.meta[i], str) and batch.meta[i].startswith("("):
+                note += " ; module source: " + batch.meta[i].replace("\n", " ")[:1500]
             ctx.violation("C02-%s-%d.txt" % (batch.label, i),
                           replay_text(small, by_name[ca], by_name[cb], ra, rb, values, j,
                                       note + (" (original history had %d pieces; in class K02a: %s)" % (len(pieces), k02a))))
@@ -726,6 +728,31 @@ def run(ctx):
         for f in feats:
             stats["features"][f] = stats["features"].get(f, 0) + 1
         b.add([src])
+    batches.append(b)
+
+    # 2b. the same kind of programs evaluated as a MODULE (`(require "<file>")`, which is how `steel file.scm` runs
+    #     a script): inside a module the builtins are `#%prim.`-qualified and compile to the specialised op codes
+    #     that the native tier implements itself, so this stream reaches far more of the native code than top-level
+    #     code does.  Values are made observable by printing them; programs that raise errors on purpose are left
+    #     out (an error inside native module code is finding K02e: covered by the jitops stream).
+    b = Batch("prog-as-module")
+    b.nospec = True
+    pm_dir = os.path.join(ctx.scratch, "mods")
+    os.makedirs(pm_dir, exist_ok=True)
+    want, tries = (24 if q else 200), 0
+    while len(b.items) < want and tries < want * 6:
+        tries += 1
+        src, feats = gen_program(rng, 3 if q else 4)
+        if "handler" in feats:
+            continue
+        forms = [f if f.startswith("(define ") else "(displayln %s)" % f for f in src.split("\n")]
+        text = "\n".join(forms) + "\n"
+        import hashlib
+        path = os.path.join(pm_dir, "prog-%s.scm" % hashlib.sha1(text.encode()).hexdigest()[:12])
+        with open(path, "w") as fh:
+            fh.write(text)
+        stats["features"]["program-as-module"] = stats["features"].get("program-as-module", 0) + 1
+        b.add(["(require \"%s\")" % path], meta=text)
     batches.append(b)
 
     # 3. lowered-core programs: model value (evalIR, with and without the model's inlining) = value under every configuration
